@@ -28,6 +28,7 @@ Event ==
                                    before |-> entries, lookups |-> Ev.lookups]
             [] Ev.ev = "clean" -> [name |-> "clean", before |-> entries, lookups |-> Ev.lookups]
             [] Ev.ev = "age" -> [name |-> "age", before |-> entries, lookups |-> Ev.lookups]
+            [] Ev.ev = "read" -> [name |-> "read", fn |-> Ev.fn, before |-> entries, lookups |-> Ev.lookups]
             [] Ev.ev = "par" -> [name |-> "par", last |-> ToSet(Ev.last), removals |-> ToSet(Ev.removals),
                                  cleans |-> Ev.cleans, during |-> Ev.during,
                                  before |-> entries, lookups |-> Ev.lookups]
@@ -37,6 +38,15 @@ TraceNext == l <= Len(Trace) /\ l' = l + 1 /\ Event
 (* A fresh table starts empty; ageing only flips expiry.                    *)
 ResetOK == act.name = "reset" => entries = {}
 AgeOK == act.name = "age" => entries = Age(act.before)
+
+(* "read": one of the table's exported read-only methods (Format, the       *)
+(* lookups, ... - enumerated by the driver by reflection) was called on the *)
+(* live table between two operations of the history.  The property counts   *)
+(* additions, removals and cleanups as the operations that change the       *)
+(* table; a reader call is a stuttering step of it.  P1, P4, P5 and         *)
+(* LookupOK (on the lookups taken AFTER the call) are evaluated behind it   *)
+(* like behind every other event.                                           *)
+ReadOK == act.name = "read" => entries = act.before
 
 (* P1 on the real lookups.                                                  *)
 LookupOK ==
